@@ -26,9 +26,11 @@ def _r(x):
 def attach_evaluate(prop="C05"):
     from mathy_core import expressions as E
 
-    def around(orig, self, context=None):
+    def around(orig, self, *args, **kwargs):
+        # (the call goes on in the form it was made: evaluate(), evaluate(ctx), evaluate(context=ctx))
+        context = args[0] if args else kwargs.get("context")
         if _DEPTH[0]:
-            return orig(self, context)
+            return orig(self, *args, **kwargs)
         _DEPTH[0] += 1
         res = exc = None
         try:
@@ -46,7 +48,7 @@ def attach_evaluate(prop="C05"):
             except Exception:
                 pass
             try:
-                res = orig(self, context)
+                res = orig(self, *args, **kwargs)
             except BaseException as e:
                 exc = e
         finally:
